@@ -361,6 +361,38 @@ func boundaryCases() []boundaryCase {
 	}
 	cs = append(cs, boundaryCase{"client-direct-mtu-omitted", "socks5", false, func(w *world) { w.clients[0].mtu = nil }, false})
 	cs = append(cs, boundaryCase{"client-direct-mtu=-1", "socks5", false, func(w *world) { w.clients[0].mtu = intp(-1) }, false})
+	// two holders of one name, each covering a single network: all ordered pairs of {TCP-only client,
+	// UDP-only client, TCP-only group, UDP-only group}; refused whatever the networks (service.go:
+	// client names unique among clients; group names unique among clients and groups). Control rows:
+	// the same holders with different names are accepted.
+	for _, a := range holderKinds {
+		for _, b := range holderKinds {
+			cs = append(cs, boundaryCase{fmt.Sprintf("same-name/%s+%s", a, b), "socks5", false, func(w *world) { w.addHolder(a, "twin"); w.addHolder(b, "twin") }, false})
+			cs = append(cs, boundaryCase{fmt.Sprintf("different-names/%s+%s", a, b), "socks5", false, func(w *world) { w.addHolder(a, "one"); w.addHolder(b, "two") }, true})
+		}
+		// against a holder that covers both networks, and against the automatically added client
+		cs = append(cs, boundaryCase{fmt.Sprintf("same-name/d0+%s", a), "socks5", false, func(w *world) { w.addHolder(a, "d0") }, false})
+		cs = append(cs, boundaryCase{fmt.Sprintf("same-name/both-networks-group+%s", a), "socks5", false, func(w *world) {
+			w.groups = append(w.groups, &grp{name: "twin", tcp: &sel{policy: "round-robin", clients: []string{"d0"}}, udp: &sel{policy: "random", clients: []string{"d0"}}})
+			w.addHolder(a, "twin")
+		}, false})
+		if a == "gt" || a == "gu" {
+			for _, mode := range []int{1, 2} {
+				cs = append(cs, boundaryCase{fmt.Sprintf("same-name/implicit-direct(clientsMode=%d)+%s", mode, a), "socks5", false, func(w *world) {
+					w.clients, w.clientsMode = nil, mode
+					w.defTCP, w.defUDP = nil, nil
+					w.servers[0].upTCP, w.servers[0].upUDP = "direct", "direct"
+					w.addHolder(a, "direct")
+				}, false})
+				cs = append(cs, boundaryCase{fmt.Sprintf("different-names/implicit-direct(clientsMode=%d)+%s", mode, a), "socks5", false, func(w *world) {
+					w.clients, w.clientsMode = nil, mode
+					w.defTCP, w.defUDP = nil, nil
+					w.servers[0].upTCP, w.servers[0].upUDP = "direct", "direct"
+					w.addHolder(a, "other")
+				}, true})
+			}
+		}
+	}
 	// a client that exists for one network only, named by references of every coverage
 	type halfRef struct {
 		name   string
